@@ -507,6 +507,10 @@ class C20(Check):
                 if len(ans) >= 2:
                     out['add'] = _dump_analyser(ans[0] + ans[1])
                     out['whole2'] = _dump_analyser(_make(inp['kind'], objs[0] + objs[1], inp['wbc'], inp['ic']))
+                    # adding / merging must not change its operands: use them again afterwards
+                    out['add_again'] = _dump_analyser(ans[0] + ans[1])
+                out['merge_again'] = _dump_analyser(ts.merge_analysers(ans))
+                out['parts_after'] = [_dump_analyser(a) for a in ans]
                 return out
             return call(f)
         if case.kind == 'keyness':
@@ -779,6 +783,13 @@ class C20(Check):
             same(o['merge'], o['whole'], 'merge')
             if 'add' in o:
                 same(o['add'], o['whole2'], 'add')
+            if 'add_again' in o:
+                same(o['add_again'], o['whole2'], 'add-second-time')
+            if 'merge_again' in o:
+                same(o['merge_again'], o['whole'], 'merge-second-time')
+            for i, (before, after) in enumerate(zip(o['parts'], o.get('parts_after', o['parts']))):
+                if before != after:
+                    bad('operand-changed', f'analyser of part {i} changed by adding / merging: {before} -> {after}')
         elif case.kind == 'keyness':
             if 'err' in out:
                 bad('keyness-raises', f'compute_keyness raised {out["err"]}')
@@ -800,9 +811,10 @@ class C20(Check):
                         bad('keyness-direction', f'{side}: {tok} has relative frequency {ft} > {fr} but is not in more')
                     if ft < fr and not in_less:
                         bad('keyness-direction', f'{side}: {tok} has relative frequency {ft} < {fr} but is not in less')
-                    if in_more and not ft > fr:
-                        # 'more' exactly when the target frequency exceeds the reference one (DESIGN §7: an iff)
-                        bad('keyness-direction', f'{side}: {tok} is in more but its relative frequency {ft} does not exceed {fr}')
+                    if in_more and ft < fr:
+                        # (equal relative frequencies: the statement does not say where the token goes — the
+                        #  code's choice, 'less', is proved for the model and tied by the correspondence)
+                        bad('keyness-direction', f'{side}: {tok} is in more but its relative frequency {ft} is lower than {fr}')
                     for p in ('more', 'less'):
                         if tok in o[p]:
                             s = o[p][tok]
